@@ -49,6 +49,8 @@ type c08Outcome struct {
 	// victim request numbers of the commits that stored a shuttermint block carrying DKG
 	// messages (commitments, evaluations, accusations, apologies)
 	dkgCommits []int
+	// disputeCommits: commits of blocks that carried accusations / apologies
+	disputeCommits []int
 }
 
 func c08Execute(r *simkit.Run, n, t, nbyz int, sabotage bool, L int64, tape []int, crash c08Crash, sub uint64) *c08Outcome {
@@ -349,7 +351,7 @@ func c08Execute(r *simkit.Run, n, t, nbyz int, sabotage bool, L int64, tape []in
 		}
 	}
 	for _, b := range w.tmc.Blocks {
-		dkgBlock := false
+		dkgBlock, disputeBlock := false, false
 		for _, tx := range b.Txs {
 			raw, err := base64.RawURLEncoding.DecodeString(string(tx))
 			if err != nil {
@@ -362,9 +364,15 @@ func c08Execute(r *simkit.Run, n, t, nbyz int, sabotage bool, L int64, tape []in
 			if mw.Msg.GetPolyCommitment() != nil || mw.Msg.GetPolyEval() != nil || mw.Msg.GetAccusation() != nil || mw.Msg.GetApology() != nil {
 				dkgBlock = true
 			}
+			if mw.Msg.GetAccusation() != nil || mw.Msg.GetApology() != nil {
+				disputeBlock = true
+			}
 		}
 		if k, ok := commitAt[b.Height]; ok && dkgBlock {
 			out.dkgCommits = append(out.dkgCommits, k)
+		}
+		if k, ok := commitAt[b.Height]; ok && disputeBlock {
+			out.disputeCommits = append(out.disputeCommits, k)
 		}
 	}
 	// (consistency) C07's oracle over all keypers
@@ -538,6 +546,11 @@ func runC08(r *simkit.Run) {
 		for i := 0; i < 5 && len(base.dkgCommits) > 0; i++ {
 			points = append(points, c08Crash{at: base.dkgCommits[c.Intn(len(base.dkgCommits), "crash-dkg-commit")], mode: "after-commit"})
 			r.Probe("crash-after-dkg-block")
+		}
+		// ... in particular the (rare) blocks with accusations and apologies
+		for i := 0; i < 3 && len(base.disputeCommits) > 0; i++ {
+			points = append(points, c08Crash{at: base.disputeCommits[c.Intn(len(base.disputeCommits), "crash-dispute-commit")], mode: "after-commit"})
+			r.Probe("crash-after-dispute-block")
 		}
 		for i := 0; i < 3 && len(commits) > 0; i++ {
 			points = append(points, c08Crash{at: commits[c.Intn(len(commits), "crash-commit")], mode: "after-commit"})
